@@ -19,8 +19,8 @@ from . import lex_common as L
 RULE = ("line breaks in all three forms (CR, CRLF, LF) in texts and raw bodies, judged against spec_trim of the skeleton "
         "with unified breaks; skeletons = alternating texts and tags; texts from {'', ' ', LF, ' LF ', TAB, 'a', 'a LF', ' a'}; tags = block / "
         "comment (3x3 modifiers), variable (3x2), raw blocks (modifiers on both tags, body from the texts). Exhaustive: all "
-        "one-tag skeletons x 4 trim/lstrip settings; two-tag skeletons subsampled (quick) / exhaustive over the first 6 "
-        "texts (thorough); random 3-6 tag skeletons; default delimiters plus <% %>/<%= %>/<!-- --> and $-prefixed sets. "
+        "one-tag skeletons x 4 trim/lstrip settings; two-tag skeletons subsampled (8 000 quick / 120 000 thorough of ~380 000 over the first 6 "
+        "texts); random 3-6 tag skeletons; default delimiters plus <% %>/<%= %>/<!-- --> and $-prefixed sets. "
         "distinct = (setting, skeleton); non-trivial = some text contains whitespace next to a tag.")
 
 TEXTS = ["", " ", "\n", " \n ", "\t", "a", "a\n", " a"]
@@ -119,11 +119,10 @@ def run(ctx):
             for b in TEXTS:
                 sks.append(("default", skel([a, g, b])))
     two = [(a, g1, b, g2, c) for a in TEXTS[:6] for g1 in tags2 for b in TEXTS[:6] for g2 in tags2 for c in TEXTS[:6]]
-    if ctx.tier != "thorough":
-        two = ctx.rng.sample(two, 8000)
+    two = ctx.rng.sample(two, ctx.size(8000, 120000))      # of ~380 k; the full product takes > 15 min
     for p in two:
         sks.append(("default", skel(list(p))))
-    for _ in range(ctx.size(4000, 40000)):
+    for _ in range(ctx.size(4000, 25000)):
         n = ctx.rng.randint(1, 6)
         parts = []
         for i in range(n):
@@ -146,7 +145,7 @@ def run(ctx):
         for g in [g for g in cr_tags if g[0] in "bc"]:
             for b in CR_TEXTS:
                 cr_sks.append([a, g, b])
-    for _ in range(ctx.size(4000, 50000)):
+    for _ in range(ctx.size(4000, 25000)):
         parts = []
         for i in range(ctx.rng.randint(1, 5)):
             parts.append("".join(ctx.rng.choice([" ", "\r", "\r\n", "\n", "\t", "a", "b\r", " \r "]) for _ in range(ctx.rng.randint(0, 4))))
